@@ -56,20 +56,36 @@ TECHNIQUE = "Coq proof (invariant with ghost cause sets) + differential correspo
 def _main_stream(rng, tier):
     n1, n2 = (8000, 10000) if tier == "quick" else (80000, 100000)
     for i in range(n1):
-        prog = X.gen_program(rng, rng.randint(3, 10), 0, p_always=0.2)
+        prog = X.gen_program(rng, rng.randint(3, 10), 0, p_always=0.2, new_wrappers=True)
         ops = X.gen_ops(rng, prog, rng.randint(10, 50), w=(0.40, 0.06, 0.54, 0, 0, 0), vals=(0, 1, 1, 2), p_drop=0.3)
-        yield dict(case=C.norm([prog, ops]), kind="memos", compare=True)
+        if i % 2:
+            X.add_variants(rng, prog, 0.6)       # other entry points of the same mechanism (see rxlib)
+        yield dict(case=C.norm(X.with_flags(rng, prog, ops, 0.15 if i % 2 else 0)), kind="memos", compare=True)
     for i in range(n2):
-        prog = X.gen_program(rng, rng.randint(4, 11), rng.randint(1, 3), p_always=0.15)
+        prog = X.gen_program(rng, rng.randint(4, 11), rng.randint(1, 3), p_always=0.15, new_wrappers=True)
         ops = X.gen_ops(rng, prog, rng.randint(8, 36), w=(0.32, 0.05, 0.2, 0.18, 0.2, 0.05), vals=(0, 1, 1, 2), p_drop=0.3)
-        yield dict(case=C.norm([prog, ops]), kind="memos+effects", compare=True)
+        if i % 2:
+            X.add_variants(rng, prog, 0.6)
+            ops = X.vary_disposals(rng, prog, ops)
+        yield dict(case=C.norm(X.with_flags(rng, prog, ops, 0.3 if i % 2 else 0)), kind="memos+effects", compare=True)
     for i in range(1000 if tier == "quick" else 10000):
         yield dict(case=C.norm(X.gen_zone_case(rng)), kind="zones", compare=True)
+    # operations that are NOT writes (maybe_update returning false, write().untrack(), ...): nothing may run
+    for i in range(1500 if tier == "quick" else 15000):
+        prog = X.gen_program(rng, rng.randint(3, 9), rng.choice([0, 1, 1, 2]), allow_wr=False, p_always=0.15)
+        X.add_variants(rng, prog, 0.4)
+        ops = X.add_silent(rng, prog, X.gen_ops(rng, prog, rng.randint(8, 30), w=(0.3, 0.04, 0.3, 0.12, 0.2, 0.04), vals=(0, 1, 1, 2)), n=4)
+        yield dict(case=C.norm([prog, ops + [[4]]]), kind="silent", compare=False)
+    # effects created in the middle of the history under an existing (possibly paused) owner (oracle only)
+    for i in range(500 if tier == "quick" else 5000):
+        yield dict(case=C.norm(X.gen_adopt_case(rng)), kind="adopt", compare=False)
     # ImmediateEffect subscribers (not modelled: oracle only; memo invocations started after each write are checked)
     for i in range(2000 if tier == "quick" else 20000):
         ne = rng.choice([1, 1, 2])
         prog = X.gen_program(rng, rng.randint(ne + 2, 9), ne, eff_kinds=(5,), allow_wr=False, p_untr=0.05, p_der=0.2, p_always=0.15)
         ops = X.gen_ops(rng, prog, rng.randint(6, 30), w=(0.45, 0.05, 0.5, 0.0, 0.0, 0.0), vals=(0, 1, 1, 2))
+        if i % 2:
+            X.add_variants(rng, prog, 0.6)
         yield dict(case=C.norm([prog, ops]), kind="immediate", compare=False)
     # nodes created at run time (not modelled: oracle only)
     for i in range(2000 if tier == "quick" else 20000):
